@@ -88,8 +88,15 @@ def run(ctx: Ctx) -> None:
         def forward(self, x):
             return self.l2(self.act(self.l1(x)))
 
+    def _freeze_first(m_: nn.Module) -> nn.Module:
+        for p_ in m_.l1.parameters():
+            p_.requires_grad_(False)
+        return m_
+
     builders: Dict[str, Tuple[Callable[[], nn.Module], Tuple[int, ...]]] = {
         "MLP": (MLP, (4, 8)),
+        # fine-tune-the-head set-up: the first layer is frozen when the transforms are applied
+        "MLPFrozen": (lambda: _freeze_first(MLP()), (4, 8)),
         # root module that is itself a torch.nn class: TorchDynamo skips its forward frame (finding F-ROOT)
         "SeqRoot": (lambda: nn.Sequential(nn.Linear(8, 16), nn.GELU(), nn.Linear(16, 8)), (4, 8)),
         "Res": (Res, (4, 8)),
@@ -147,7 +154,7 @@ def run(ctx: Ctx) -> None:
             return False
         return all((u is None and v is None) or (u is not None and v is not None and torch.equal(u, v)) for u, v in zip(p1, p2))
 
-    mod_names = ["MLP", "Res", "SeqRoot", "Attn", "UnitLayers"] if quick else list(builders)
+    mod_names = ["MLP", "MLPFrozen", "Res", "SeqRoot", "Attn", "UnitLayers"] if quick else list(builders)
     model_reqs, model_obs = [], []
     try:
         # other formats have been simulated earlier in the same process (the stochastic FP8 pair shares its exponent / mantissa
@@ -157,7 +164,7 @@ def run(ctx: Ctx) -> None:
             fwd_bwd(simulate_fp8(MLP()), torch.randn(4, 8), 7)
         for mname in mod_names:
             build, xshape = builders[mname]
-            for fname in (({"SeqRoot": ["e5m2rn"], "Attn": ["lossless"], "UnitLayers": ["lossless"]}.get(mname, ["lossless", "e5m2rn"]))
+            for fname in (({"SeqRoot": ["e5m2rn"], "Attn": ["lossless"], "UnitLayers": ["lossless"], "MLPFrozen": ["lossless"]}.get(mname, ["lossless", "e5m2rn"]))
                           if quick else list(formats)):
                 results: Dict[Tuple, Any] = {}
                 for core in cores:
